@@ -30,7 +30,10 @@ CHECKS = {
         "the implementation's logs; the resume experiment itself is also run on the implementation. For the concrete store of "
         "simulate/base.py (ordered dict address -> entity, saved and restored entity by entity) restore(save s)=s is DERIVED from the "
         "round trip of a single entity, and only from it (Props/C01_store.v: C01_store_roundtrip, _only_if, C01_resume_concrete_store); "
-        "a lossy entity serialiser provably breaks it (C01_lossy_entity_breaks_store).",
+        "a lossy entity serialiser provably breaks it (C01_lossy_entity_breaks_store). The engine glue (engine.py reload / rollback / "
+        "exec / _console / _exec_operation), the history bookkeeping (policy/base.py) and the operation handlers (policy/handlers.py) are "
+        "regenerated on every run by tools/tr_engine.py, tr_history.py, tr_handlers.py; Props/C01_engine_src.v proves the generated exec / "
+        "rollback / reload equal to the model's and restates C01 (and C03) for runs of the generated functions.",
    note="Trusted: Coq kernel; hypotheses parse(dump e)=e per entity (pydantic; checked on every recorded checkpoint, in memory and through "
         "JSON transports) and play is a function (exercised/checked on every run); the component "
         "code, pydantic and hashlib enter only through the recorded play table; correspondence is sampled, not exhaustive.",
